@@ -596,6 +596,9 @@ func (x *Executor) execBlock(fr *Frame, b *ssa.BasicBlock, st *State, reach stri
 	u := x.u
 	for _, in := range b.Instrs {
 		u.curPos = x.pos(fr.fn, in.Pos())
+		if in.Pos().IsValid() {
+			x.curTokPos = in.Pos()
+		}
 		x.curFrame = fr
 		switch t := in.(type) {
 		case *ssa.Phi, *ssa.DebugRef:
